@@ -17,6 +17,7 @@ import (
 	"net"
 	"net/http"
 	"path/filepath"
+	"sort"
 	"strconv"
 	"strings"
 	"sync"
@@ -1134,8 +1135,26 @@ func (c *DefaultCtx) Path(override ...string) string {
 		c.fasthttp.Request.URI().SetPath(c.pathOriginal)
 		// Prettify path
 		c.configDependentPaths()
+		// Keep routing behind the current route
+		c.syncIndexRoute()
 	}
 	return c.app.getString(c.path)
+}
+
+// syncIndexRoute re-derives the route cursor after the path was overridden inside a handler.
+// The new path may be served by another bucket of the route tree, where the numeric index of the
+// current route would point at an unrelated route, so that Next() would skip or repeat routes.
+// Buckets are sorted by registration position: continue with the first route behind the current one.
+func (c *DefaultCtx) syncIndexRoute() {
+	if c.route == nil || c.methodInt < 0 || c.methodInt >= len(c.app.treeStack) {
+		return
+	}
+	tree, ok := c.app.treeStack[c.methodInt][c.treePathHash]
+	if !ok {
+		tree = c.app.treeStack[c.methodInt][0]
+	}
+	pos := c.route.pos
+	c.indexRoute = sort.Search(len(tree), func(i int) bool { return tree[i].pos > pos }) - 1
 }
 
 // Scheme contains the request protocol string: http or https for TLS requests.
